@@ -234,6 +234,11 @@ class Conv:
         out = [((self.id, "ci"), mk + body, self.pred("ci"))]
         if self.same:
             out.append(((self.id, "pol"), mk + "(void)p.in(U2{}); (void)p.as(U2{});", self.pred("pol")))
+        # implicit converting constructor: 'ctor' = declared implicit AND well-formed; 'noctor' = not declared implicit.
+        # (both rejected = declared implicit but ill-formed when used: reported by the check)
+        p2 = "using P1 = decltype(p); using P2 = au::QuantityPoint<U2, T>; "
+        out.append(((self.id, "ctor"), mk + p2 + "static_assert(std::is_convertible<P1, P2>::value, \"\"); P2 p2 = p; (void)p2;", isf(self.r2)))
+        out.append(((self.id, "noctor"), mk + p2 + "static_assert(!std::is_convertible<P1, P2>::value, \"\");", not isf(self.r2)))
         return out
 
     def swept(self, cfg):
@@ -257,17 +262,17 @@ class Conv:
             self.iv = [(lo, hi)]          # 8/16-bit source reps: every value
 
     def weight(self):
-        return sum(b - a + 1 for a, b in self.iv) * (2 if isf(self.r1) else 1)
+        return sum(b - a + 1 for a, b in self.iv) * (3 if isf(self.r1) else 1)
 
     def emit(self, cfg):
         ops = self.ops[cfg.name]
         c = self.calc
         cl, ch = lim(c)
         return ("struct I%d { typedef %s U1; typedef %s U2; typedef %s R1; typedef %s R2; typedef %s CF; "
-                "static constexpr bool CFLOAT = %s, CUNS = %s, SAME = %s, POL = %s; %s };\n%s"
+                "static constexpr bool CFLOAT = %s, CUNS = %s, SAME = %s, POL = %s, CTOR = %s; %s };\n%s"
                 % (self.id, self.u1.cpp, self.u2.cpp, self.r1, self.r2, cf_of(c), str(isf(c)).lower(),
                    str(not isf(c) and not core.is_signed(c)).lower(), str(self.same).lower(),
-                   str(bool(ops.get("pol"))).lower(),
+                   str(bool(ops.get("pol"))).lower(), str(bool(ops.get("ctor"))).lower(),
                    consts(KX=self.kx, KD=self.kd, N=self.n, D=self.d, CLO=cl, CHI=ch), ivs("A%d" % self.id, self.iv)))
 
     def call(self):
@@ -426,7 +431,7 @@ SHIFT_REPS_QUICK = [("int32_t", "int32_t"), ("int32_t", "int64_t"), ("int64_t", 
 # quick tier: every equal-rep pair + both orders of the width/signedness/int-float mixes
 REPS_QUICK = [(r, r) for r in REPS] + [("int32_t", "int64_t"), ("int64_t", "int32_t"), ("uint32_t", "int32_t"),
                                        ("int32_t", "uint32_t"), ("int32_t", "double"), ("double", "int32_t"),
-                                       ("float", "double"), ("int64_t", "float")]
+                                       ("float", "double"), ("double", "float"), ("int64_t", "float")]
 # narrow reps, conversions only (added after seeded change C09: the intermediate-rep rule matters for unsigned reps
 # narrower than int, where std::common_type_t<T,T> does not promote)
 REPS_NARROW_CONV = [("uint16_t", "uint16_t"), ("uint8_t", "uint8_t"), ("int16_t", "int16_t"), ("uint16_t", "int32_t"),
@@ -481,7 +486,7 @@ def run_domain_probes(wd, cfg, insts):
         it.ops[cfg.name][p.pid[1]] = v == "accept"
         nacc += v == "accept"
         nrej += v == "reject"
-        if v != p.expect:
+        if v != p.expect and p.pid[1] not in ("ctor", "noctor"):
             mism.append({"config": str(cfg), "instance": it.kind + ":" + it.desc(), "group": p.pid[1],
                          "predicted": p.expect, "observed": v, "diag": diag[:140]})
     return mism, nacc, nrej
